@@ -173,7 +173,8 @@ CHECKS = {
              "independent per position, each with the argument's rendering (wildcards count as positions). Tied to /repo by generated traits and matching! invocations at known lines, compiled "
              "with the real macros for every error kind and compared on parsed components (call path, argument list, pattern text/file:line or index, mismatch positions and values). "
              "The Impossible parameter class (`&mut T<'a>`) keeps its own entry at its own position (C19_impossible_keeps_its_position); wrong-order errors are generated at every slot of an n_times(k) pattern in line. "
-             "Parameter types include argument-position impl Debug.",
+             "Parameter types include argument-position impl Debug. "
+             "Also a user type whose hand-written Debug is not injective (an eq! mismatch with identical Debug texts still carries the value).",
         design_ref="DESIGN.md section 7, C19",
         technique="Coq proof (rendering lemmas by induction over argument lists / sub-patterns) + generated-program co-execution against the real macros"),
     "C06": dict(
